@@ -27,6 +27,7 @@ type bcall struct {
 	afterClose bool // Close had been invoked before the call returned
 	afterCloseInvoke bool
 	conn *simConn
+	writeUs int64 // when the request frame was completely written
 }
 
 type brokerScen struct {
@@ -182,6 +183,7 @@ func (bs *brokerScen) onWrite(c *simConn, h reqHeader, frame []byte) {
 		bs.mu.Lock()
 		if call := bs.calls[bs.tokenOf(body)]; call != nil {
 			call.conn = c
+			call.writeUs = bs.r.k.nowUs()
 		}
 		bs.mu.Unlock()
 	}
@@ -297,7 +299,19 @@ func (bs *brokerScen) judge() {
 			r.violate("C14.call-hang-after-failure", "call %d succeeded although the connection had failed at request #%d (this call arrived as #%d)", id, bs.faultIdx, call.arrived)
 		}
 		// (a reset may legitimately destroy responses that were still in flight; an orderly close may not)
-		if call.err != nil && !call.afterClose && !bs.resetFault && (bs.faultIdx < 0 || (call.arrived >= 0 && call.arrived < bs.faultIdx)) && call.arrived >= 0 {
+		// (the obligation exists only if the response reached the client before the earliest possible read
+		// deadline of this call: request written + Net.ReadTimeout; network latency alone can exceed it)
+		inTime := false
+		if call.conn != nil {
+			call.conn.mu.Lock()
+			d, ok := call.conn.deliveredAt[call.corr]
+			call.conn.mu.Unlock()
+			inTime = ok && d < call.writeUs+int64(bs.c.Config.ReadTimeoutMs)*1000
+		}
+		if !inTime && call.err != nil {
+			r.probe("response-later-than-read-deadline")
+		}
+		if call.err != nil && inTime && !call.afterClose && !bs.resetFault && (bs.faultIdx < 0 || (call.arrived >= 0 && call.arrived < bs.faultIdx)) && call.arrived >= 0 {
 			// an error for a request the server answered properly, with no Close in sight
 			r.violate("C14.wrong-response", "call %d failed with %v although the server answered request #%d properly and no connection fault preceded it (first fault at #%d)", id, call.err, call.arrived, bs.faultIdx)
 		}
